@@ -43,7 +43,17 @@ CHECKS = {
          "Rocq proof by reflection over translator-regenerated tables + exhaustive differential correspondence"),
 }
 
+def load_props_d():
+    """checks whose manifest text lives in tools/props.d/<ID>.json (keys manifest_text, manifest_note, manifest_technique)"""
+    import glob
+    for f in sorted(glob.glob(os.path.join(ROOT, "tools/props.d/*.json"))):
+        pid = os.path.splitext(os.path.basename(f))[0]
+        cfg = json.load(open(f))
+        if "manifest_text" in cfg:
+            CHECKS[pid] = (cfg["manifest_text"], cfg.get("manifest_note", ""), cfg.get("manifest_technique", ""))
+
 def main():
+    load_props_d()
     checks = []
     for pid in sorted(CHECKS):
         text, note, tech = CHECKS[pid]
